@@ -1,6 +1,7 @@
 package t1gen
 
 import (
+	"bytes"
 	"math"
 	"strconv"
 	"time"
@@ -16,12 +17,12 @@ import (
 
 // FontOpts restricts the library-level font generator.
 type FontOpts struct {
-	NoOperatorNames   bool // glyph names that shadow operators used inside CharStrings
-	NoNewlineVersion  bool // Version containing CR or LF
-	NoStdEncHoles     bool // StandardEncoding with codes of existing glyphs set to .notdef
-	NoOddZones        bool // creation time zones whose abbreviation Go cannot parse back
-	MaxGlyphs         int
-	LongPaths         bool
+	NoOperatorNames  bool // glyph names that shadow operators used inside CharStrings
+	NoNewlineVersion bool // Version containing CR or LF
+	NoStdEncHoles    bool // StandardEncoding with codes of existing glyphs set to .notdef
+	NoOddZones       bool // creation time zones whose abbreviation Go cannot parse back
+	MaxGlyphs        int
+	LongPaths        bool
 }
 
 // ShadowNames are glyph names that shadow a name the customary Type 1 layout
@@ -182,6 +183,17 @@ func GenFont(t *rapid.T, opts FontOpts) (*type1.Font, map[string]bool) {
 			return ""
 		}
 		b := genBytes(t, label, 30)
+		if rapid.IntRange(0, 11).Draw(t, label+"long") == 0 {
+			// a long string with bytes that need escaping at drawn offsets
+			// (in particular around 250-256 and 510-514)
+			n := rapid.OneOf(rapid.IntRange(240, 270), rapid.IntRange(500, 530), rapid.IntRange(100, 900)).Draw(t, label+"longlen")
+			b = bytes.Repeat([]byte{'x'}, n)
+			for i := rapid.IntRange(1, 6).Draw(t, label+"nesc"); i > 0; i-- {
+				at := rapid.OneOf(rapid.IntRange(0, n-1), rapid.IntRange(max(0, n-12), n-1)).Draw(t, label+"escat")
+				b[at] = []byte{'(', ')', '\\', '\r', '\n', 0, 0x80}[rapid.IntRange(0, 6).Draw(t, label+"escbyte")]
+			}
+			feat["long-info-string"] = true
+		}
 		for _, c := range b {
 			switch c {
 			case '(', ')', '\\', '\r', '\n', 0:
